@@ -142,7 +142,10 @@ Definition sorted_imports_orig (l : list simport) : list simport :=
   sort_stable (fun x => i_module x) String.ltb l.
 
 (* ---- _config_str ---- *)
-Definition is_macro (e : sentry) : bool := String.eqb (e_sel e) "gin.macro".
+(* a macro is a binding of gin.macro under the scope that is its NAME; a root-scope binding "macro.value = v" has no
+   "name = value" form and is emitted with the ordinary sections (repaired code, F58; before, it was printed " = v") *)
+Definition is_macro_orig (e : sentry) : bool := String.eqb (e_sel e) "gin.macro".
+Definition is_macro (e : sentry) : bool := String.eqb (e_sel e) "gin.macro" && negb (String.eqb (e_scope e) "").
 Definition is_constant (e : sentry) : bool := String.eqb (e_sel e) "gin.constant".
 
 (* sort_key (2142-2149) *)
